@@ -109,6 +109,10 @@ class FullOps(TorchCalls):
             out = out.but(note=note or ((part + "+".join(sorted(t.origin))) if part else "finite-test:other"))  # (any(isnan(x)) / any(isinf(x)): halves of the question, see boolop)
             if note and t.origin == frozenset(["matrix"]):
                 self.ev("finite_check", node)
+        if t.note == "rowdiff":
+            # ||matrix - row||_p over the columns: the distances from the current row to every row (one row of the matrix of pairwise distances)
+            exact = fn == "norm" and [t.axes[d] for d in dims] == ["C"] and not keepdim and t.axes == ("R", "C") and t.q and t.s and t.span and t.deg == Fraction(1) and len(t.gen) == 1
+            out = out.but(note=f"rowdist:{2 if ord_ in (None, 'fro') or ord_ == 2 else ord_}" if exact else "")
         return self.tag(out, "reduce", node, fn=fn, over=[t.axes[d] for d in dims], over_pos=list(dims), in_axes=list(t.axes), in_origin=sorted(t.origin))
 
     def arg_reduce(self, t: TV, fn, dim, node):
